@@ -78,11 +78,12 @@ type recorder struct {
 	handed    map[int]int    // cid -> bytes the kernel accepted from write/writev
 	handedB   map[int][]byte
 
-	injects  []inject
-	faulted  map[int]string // cid -> fatal fault injected on its behalf
-	counters map[string]int
-	injected []string
-	shutdown bool
+	injects    []inject
+	faulted    map[int]string // cid -> fatal fault injected on its behalf
+	counters   map[string]int
+	injected   []string
+	shutdown   bool
+	stopLogged bool
 }
 
 func newRecorder() *recorder {
@@ -208,7 +209,11 @@ func (r *recorder) checkOwned(c *vunix.Call, fd int, g int64) {
 		} else if g == r.accG {
 			who = "acceptor"
 		}
-		r.failLocked("fd-not-owned", fmt.Sprintf("%s:%s", who, c.Name),
+		name := c.Name
+		if name == "epoll_ctl" {
+			name += map[int]string{unix.EPOLL_CTL_ADD: "-add", unix.EPOLL_CTL_MOD: "-mod", unix.EPOLL_CTL_DEL: "-del"}[c.Arg]
+		}
+		r.failLocked("fd-not-owned", fmt.Sprintf("%s:%s", who, name),
 			fmt.Sprintf("%s on descriptor %d which the framework does not own at this point", c.Name, fd))
 	}
 }
